@@ -265,6 +265,47 @@ def run_key_dependence(R, name):
     R.sample({"config": name, "distinct_instances_over_32_keys": len(seen)})
 
 
+def run_mmst_real_keys(R, num_nodes, num_edges, num_agents, per_agent, nkeys=8):
+    """MMST SplitRandomGenerator on REAL keys only (its solvability is not decided symbolically, DESIGN 8.3: float Cantor pairing under
+    nested data-dependent loops).  Concrete sanity layer, stated as such: for `nkeys` real keys the adjacency matrix is symmetric without
+    self-loops, the graph is connected, every agent's nodes-to-connect are distinct nodes of the agent's own connected sub-graph (hence a
+    spanning tree over them exists).  Sizes in which num_nodes is NOT a multiple of num_agents are included (unequal sub-graph blocks)."""
+    from jumanji.environments.routing.mmst.generator import SplitRandomGenerator
+    gen = SplitRandomGenerator(num_nodes=num_nodes, num_edges=num_edges, max_degree=5, num_agents=num_agents, num_nodes_per_agent=per_agent, max_step=num_nodes)
+    R.bound(generator="MMST SplitRandomGenerator", num_nodes=num_nodes, num_edges=num_edges, num_agents=num_agents, keys=f"PRNGKey(0..{nkeys - 1})", technique="concrete execution (not a solver verdict)")
+    f = jax.jit(gen.__call__)
+
+    def comp(adj, start, allowed):
+        seen, todo = {int(start)}, [int(start)]
+        while todo:
+            u = todo.pop()
+            for v in np.nonzero(adj[u])[0]:
+                if int(v) not in seen and allowed[int(v)]:
+                    seen.add(int(v))
+                    todo.append(int(v))
+        return seen
+    bad = []
+    for k in range(nkeys):
+        st = jax.tree_util.tree_map(np.asarray, f(jax.random.PRNGKey(k)))
+        adj = st.adj_matrix
+        if not (adj == adj.T).all() or adj.diagonal().any():
+            bad.append({"key": k, "what": "adjacency matrix not symmetric / has self-loops"})
+            continue
+        if len(comp(adj, 0, np.ones(num_nodes, bool))) != num_nodes:
+            bad.append({"key": k, "what": "graph not connected"})
+            continue
+        for a in range(num_agents):
+            todo = st.nodes_to_connect[a]
+            todo = todo[todo >= 0]
+            # nodes an agent may use: utility nodes (-1) and its own nodes (node_types == agent id)
+            allowed = (st.node_types == -1) | (st.node_types == a)
+            if len(set(todo.tolist())) != len(todo) or not all(allowed[int(n)] for n in todo) or not set(todo.tolist()) <= comp(adj, todo[0], allowed):
+                bad.append({"key": k, "agent": a, "what": "nodes to connect are not distinct nodes of one component of the agent's usable sub-graph", "nodes": todo.tolist()})
+    R.validated += nkeys
+    R.structural(f"MMST {num_nodes} nodes / {num_agents} agents: symmetric loop-free connected graph, every agent's terminals connectable through its own and utility nodes ({nkeys} real keys)",
+                 not bad, {"failures": bad[:3]})
+
+
 def run_sudoku_dtypes(R):
     """(also a C01 job: the reset observation of such a generator must lie inside the declared board bounds)"""
     import os
@@ -390,6 +431,8 @@ def jobs(tier, seed):
         for lo in (0, 5, 10):
             js.append((f"lbf-food/8x6/pairs{lo}", "checks.C10", "run_lbf_food", {"g": 8, "F": 6, "pairs": (lo, lo + 5)}))
     js.append(("shipped-data", "checks.C10", "run_concrete", {}))
+    for nn, ne, na, pa in ([(12, 18, 2, 3), (14, 24, 3, 3)] if tier == "quick" else [(12, 18, 2, 3), (14, 24, 3, 3), (23, 40, 4, 3), (36, 72, 3, 4)]):
+        js.append((f"mmst-generator/real-keys/{nn}x{na}", "checks.C10", "run_mmst_real_keys", {"num_nodes": nn, "num_edges": ne, "num_agents": na, "per_agent": pa}))
     return js
 
 
